@@ -23,6 +23,8 @@ var VerifMon struct {
 	MaxSPMain        int           // max sp seen in the main memory
 	MaxSPChild       int           // max sp seen in any other memory
 	MaxStackLen      int           // max len(stack) seen in any memory
+	Forks            int           // iterator contexts forked (CCONT dispatched) since last reset
+	ForkLimit        int           // 0 = unlimited; exceeding it ends the run like the step limit
 	SampleBackEdge   bool          // count live contexts at backward jumps
 	MaxCtxAtBackEdge int
 	BackEdges        int
@@ -31,6 +33,7 @@ var VerifMon struct {
 // VerifReset clears the per-statement counters (not the shape set).
 func VerifReset() {
 	VerifMon.Steps = 0
+	VerifMon.Forks = 0
 	VerifMon.LastIP = -1
 	VerifMon.LastInstr = 0
 	VerifMon.LastCtxDepth = 0
@@ -46,6 +49,12 @@ func verifStep(vm *Type, ctxp *context, m *memory.Type, ip int, instr bytecode.T
 	mon.Steps++
 	if mon.StepLimit > 0 && mon.Steps > mon.StepLimit {
 		panic(VerifStepLimitHit{Steps: mon.Steps})
+	}
+	if instr.OpCode() == bytecode.CCONT {
+		mon.Forks++
+		if mon.ForkLimit > 0 && mon.Forks > mon.ForkLimit {
+			panic(VerifStepLimitHit{Steps: mon.Steps})
+		}
 	}
 	mon.LastIP = ip
 	mon.LastInstr = instr
